@@ -505,17 +505,22 @@ VariantSet(v, R, V) ==
          \cup F(v.samebytes, "Wire:Equivalent:ByteIdentical:" \o VarKind(R, V))
 VariantsSet(o, R) == UNION {VariantSet(o.vars[i], R, Ref(o.vars[i].s)) : i \in 1..Len(o.vars)}
 
-\* q: the request that carries the caller's method (the last one; a tunnel has a CONNECT before it)
+\* q: the request that carries the caller's method (the last one; a tunnel has a CONNECT before it).
+\* o.carrier: the address that was dialled for the connection which CARRIED the request (from the network's
+\* dial log and the peer's per-connection request log).  Within a history a request may travel over a
+\* kept-alive connection (o.dials = <<>>): it must still be one that was dialled to THIS URL's own host.
+Carrier(o) == IF o.carrier # <<>> THEN o.carrier ELSE o.dials[1]
 WireSentSet(o, R, W, sc, h, dp, q) ==
-    IF Len(o.dials) # 1 THEN {"Wire:OneConnection"}
-    ELSE IF Len(o.req) # (IF W.mode = "tunnel" THEN 2 ELSE 1) THEN {"Wire:OneRequest"}
-    ELSE F(o.dials[1][1] = W.dialhost, "Wire:DialHost")
-         \cup F((W.mode = "direct" /\ R.port = 0) \/ o.dials[1][2] = W.dialport, "Wire:DialPort")
-         \cup F(W.mode # "tunnel" \/ (/\ o.req[1].m = "CONNECT" /\ HasAny(o.req[1].t, {COLON})
-                                      /\ NamesHostPort(o.req[1].t, h, sc, dp, R.port = 0)), "Wire:ConnectTarget")
+    IF Len(o.dials) > 1 \/ (o.dials = <<>> /\ o.carrier = <<>>) THEN {"Wire:OneConnection"}
+    ELSE IF Len(o.req) # (IF W.mode = "tunnel" /\ o.dials # <<>> THEN 2 ELSE 1) THEN {"Wire:OneRequest"}
+    ELSE F(Carrier(o)[1] = W.dialhost /\ \A i \in 1..Len(o.dials) : o.dials[i][1] = W.dialhost, "Wire:DialHost")
+         \cup F((W.mode = "direct" /\ R.port = 0)
+                \/ (Carrier(o)[2] = W.dialport /\ \A i \in 1..Len(o.dials) : o.dials[i][2] = W.dialport), "Wire:DialPort")
+         \cup F(Len(o.req) = 1 \/ (/\ o.req[1].m = "CONNECT" /\ HasAny(o.req[1].t, {COLON})
+                                   /\ NamesHostPort(o.req[1].t, h, sc, dp, R.port = 0)), "Wire:ConnectTarget")
          \cup (IF Len(q.hosts) # 1 THEN {"Wire:HostHeaderCount"}
                ELSE F(NamesHostPort(q.hosts[1], h, sc, dp, R.port = 0), "Wire:HostHeader"))
-         \cup F(o.snis = (IF sc = HTTPS THEN <<W.sni>> ELSE <<>>), "Wire:SNI")
+         \cup F(o.snis = (IF sc = HTTPS /\ o.dials # <<>> THEN <<W.sni>> ELSE <<>>), "Wire:SNI")
          \cup (IF W.mode = "forward" THEN AbsoluteSet(Ref(q.t), R, sc, h, dp) ELSE OriginSet(q.t, R))
          \cup VariantsSet(o, R)
 \* fault class "name resolution fails for the dial name" (o.fault: the harness made create_connection raise
@@ -541,7 +546,12 @@ WireClauses(o) == WireClauses2(o, Ref(o.s), IF o.px = NONE THEN Ref(<<>>) ELSE R
 \* history class: consecutive requests through ONE manager.  h = [steps (observations as above, vars = <<>>),
 \* hdr0 / hdr1 (the manager's default headers before / after, as <<name, value>> pairs)]: every request is
 \* judged on its OWN URL, and serving requests must not change the manager's defaults
+\* consecutive requests for Equivalent URLs (letter case / explicit default port only), the first one left its
+\* connection open: they reach the same pool, so the second travels over that connection (no new dial)
+HistPairSet(a, b) == IF a.k = "sent" /\ b.k = "sent" /\ ~a.closed /\ ~b.fault /\ Equivalent(Ref(a.s), Ref(b.s))
+                     THEN F(b.dials = <<>>, "Wire:Equivalent:SamePool:History") ELSE {}
 HistClauses(h) == UNION {WireClauses(h.steps[i]) : i \in 1..Len(h.steps)}
+                  \cup UNION {HistPairSet(h.steps[i], h.steps[i + 1]) : i \in 1..(Len(h.steps) - 1)}
                   \cup F(h.hdr1 = h.hdr0, "Wire:DefaultHeadersMutated")
 
 \* facts about the reading (for reports and for matching recorded findings on the input class)
@@ -562,7 +572,7 @@ WireObs(str, pxs, W) ==
     [s |-> str, px |-> pxs, k |-> "sent", dials |-> << <<W.dialhost, W.dialport>> >>,
      req |-> (IF W.mode = "tunnel" THEN << [m |-> "CONNECT", t |-> W.connect, hosts |-> <<W.connect>>] >> ELSE <<>>)
              \o << [m |-> "GET", t |-> W.target, hosts |-> <<W.hosthdr>>] >>,
-     snis |-> IF W.sni = NONE THEN <<>> ELSE <<W.sni>>, vars |-> <<>>, fault |-> FALSE, u3 |-> TRUE]
+     snis |-> IF W.sni = NONE THEN <<>> ELSE <<W.sni>>, vars |-> <<>>, fault |-> FALSE, u3 |-> TRUE, carrier |-> <<W.dialhost, W.dialport>>]
 
 -----------------------------------------------------------------------------
 (* Enumeration of the input domain and the stage-1 invariants                   *)
